@@ -78,4 +78,21 @@ PROPS = {
         "floors": {"quick": {"evaluations": 500000, "distinct_nontrivial": 2000, "runs_with_premise_satisfied": 300000, "runs_where_sorting_reordered": 200000}, "thorough": {"evaluations": 5000000, "distinct_nontrivial": 5000}},
         "assumptions": ["lifecycle start times < 2^52 us; the u64::MAX marker of merged lifecycles is never published", "windows_size_secs >= 1 as the statement says"],
     },
+    "C11": {
+        "level": "exploration",
+        "quick": cfg(16, 25),
+        "thorough": cfg(16, 400),
+        "exhaustive_key": "sweep_all_256_type_bytes",
+        "rule": "abstract filters are rendered into every front end that can express them (JSON with explicit or auto-detected regex flags, dlt-viewer DLF XML, dlt-convert 'APID CTID ' cells, and from_json(to_json(f))) and Filter::matches is compared with a 40-line specification whose regex criteria come from a catalogue of (pattern, Rust predicate) pairs, so the oracle never runs a regex engine. Part 1 sweeps the small universe completely: every single-criterion filter (10 literal ids and 8 regexes x ecu/apid/ctid, all 256 type values, 8 mstp values, all level bounds and pairs, 7 payload texts and 6 payload regexes x case flag, lifecycle lists, 16 apid+ctid pairs) x not x enabled against a fixed message universe (ids short/full, with and without extended header, type bytes: thorough all 256, quick every 7th plus 8 special). Part 2 draws random criteria subsets and random messages. Non-trivial = filter with >=1 matching and >=1 non-matching message; distinct = (kind, enabled, not, per criterion variant, front ends expressible).",
+        "floors": {"quick": {"evaluations": 100000, "distinct_nontrivial": 500, "pairs_json": 10000000, "pairs_dlf": 3000000, "pairs_convert-format": 10000, "sweep_filters": 1500}, "thorough": {"evaluations": 1000000, "distinct_nontrivial": 1000, "sweep_all_256_type_bytes": 1}},
+        "assumptions": ["ids in filters and messages are printable ASCII, NUL padded (regexes run on the 4 raw bytes)", "ambiguous encodings are not generated: '----' cells of the convert format, DLF payload texts with leading/trailing blanks or empty", "the ECU:APID:CTID expression front end lives in the binary and is exercised by C14 (--eac)"],
+    },
+    "C12": {
+        "level": "exploration",
+        "quick": cfg(16, 25),
+        "thorough": cfg(16, 400),
+        "rule": "sets of 0-8 abstract filters of every kind (positive/negative/marker/event), enabled or not, negated or not, overlapping and duplicated, against streams of 0-500 messages; filter_as_streams (forwarded messages, passed+filtered) and the set matcher match_filters built through StreamContext::from (stream and query) incl. filtered_msgs after feeding process_stream_new_msgs in random batches; oracle = spec_matches + keep rule. Non-trivial = >=1 enabled positive and >=1 enabled negative filter and both outcomes observed; distinct = multiset of (kind, enabled, negated).",
+        "floors": {"quick": {"evaluations": 50000, "distinct_nontrivial": 500, "agreement_checks": 1000000}, "thorough": {"evaluations": 500000, "distinct_nontrivial": 1000}},
+        "assumptions": ["disabled filters reach match_filters only through the front doors that drop them (documented precondition of that function)"],
+    },
 }
